@@ -167,6 +167,15 @@ func psScenario(r *kernel.Rand, mode string, nea, nia int, optIEs bool) *scn.Sce
 	return s
 }
 
+// psScenario2 is psScenario("establish") with room for a second subscriber (IMSI + 1).
+func psScenario2(r *kernel.Rand, optIEs bool) *scn.Scenario {
+	o := GenOpts{Profile: "ps-establish", Mode: "test", MinReg: 2, MaxReg: 2, Sessions: true, Latency: "swarm-fast", ExplicitUEs: 2, OptIEs: optIEs, TopLevelOpts: true}
+	s := Gen(r.Uint64(), o)
+	s.Args = []string{}
+	s.Rig = map[string]interface{}{"mode": "establish", "nea": 0, "nia": 2, "ran_id": 0}
+	return s
+}
+
 func checkC05(c *Ctx) {
 	nWS, nPS, nProbe := 1200, 1800, 3000
 	if c.Tier == "thorough" {
@@ -377,6 +386,36 @@ func judgePSEstablish(r *Run) []Finding {
 	if fmt.Sprint(g["upf_ip"]) != p.UPFIP {
 		fs = addFinding(fs, "extract.upf_ip@EstablishPDU", fmt.Sprintf("EstablishPDU returned UPF address %v, the network's is %s (transfer options %#x, AMBR %d/%d)", g["upf_ip"], p.UPFIP, p.TransOpt, p.AMBRDL, p.AMBRUL), 0)
 	}
+	// what was reported stays what it was while the conversation goes on
+	second, _ := r.Scn.Rig["second_ue"].(bool)
+	if second && len(fs) == 0 {
+		if r2 := evInfo(r, "ret2"); len(r2) > 0 {
+			p2 := ueParamsOf(r.Scn, 1)
+			var t2 uint32
+			b2, _ := hex.DecodeString(p2.TEID)
+			for _, x := range b2 {
+				t2 = t2<<8 | uint32(x)
+			}
+			f, _ := r2[0]["teid"].(float64)
+			if fmt.Sprint(r2[0]["ue_ip"]) != p2.UEIP || uint32(f) != t2 || fmt.Sprint(r2[0]["upf_ip"]) != p2.UPFIP {
+				fs = addFinding(fs, "extract.second-ue@EstablishPDU", fmt.Sprintf("the second UE's session was reported as %v/%v/%v, the network assigned %s/%d/%s", r2[0]["ue_ip"], r2[0]["teid"], r2[0]["upf_ip"], p2.UEIP, t2, p2.UPFIP), 1)
+			}
+		}
+	}
+	if then, _ := r.Scn.Rig["then_release"].(bool); (then || second) && len(fs) == 0 {
+		later := evInfo(r, "ret-later")
+		if len(later) == 0 {
+			if kind, _ := crashSite(r.StderrText()); kind == "" && r.Exit == 0 {
+				fs = addFinding(fs, "unobserved.ret-later@"+lastSite(r), "the reported values were not looked at again", -1)
+			}
+		} else {
+			for _, k := range []string{"ue_ip", "teid", "upf_ip"} {
+				if fmt.Sprint(later[0][k]) != fmt.Sprint(g[k]) {
+					fs = addFinding(fs, "extract.changed-later@EstablishPDU", fmt.Sprintf("EstablishPDU reported %s=%v; after later exchanges on the same association the caller's value reads %v", k, g[k], later[0][k]), 0)
+				}
+			}
+		}
+	}
 	return fs
 }
 
@@ -451,7 +490,16 @@ func checkC12(c *Ctx) {
 	shapes := map[string]bool{}
 	var jobs []Job
 	for i := 0; i < nPS; i++ {
-		jobs = append(jobs, Job{S: psScenario(root, "establish", 0, 2, true), Rig: "ps", Judge: "ps-c12", Tag: "c12-ps"})
+		ps := psScenario(root, "establish", 0, 2, true)
+		if i%3 == 0 {
+			ps.Rig["then_release"] = true
+			ps.Lat = genLatency(root.Sub("fast"), "zero") // the fixed sleeps of release/deregistration need a prompt core
+		}
+		if i%3 == 1 {
+			ps = psScenario2(root, true)
+			ps.Rig["second_ue"] = true
+		}
+		jobs = append(jobs, Job{S: ps, Rig: "ps", Judge: "ps-c12", Tag: "c12-ps"})
 	}
 	c.Batch(jobs, func(j Job, r *Run, fs []Finding) {
 		p := ueParamsOf(j.S, 0)
